@@ -28,7 +28,9 @@ pub enum Case {
     /// exactly when the rules are violated
     Rebuild { e: Expression },
     /// replace_scalar for every scalar of `e`, then eval
-    Subst { e: Expression, env: BTreeMap<String, Bv> },
+    /// `namesake`: a scalar of `e` which shares its name with a scalar of `env` but not its width
+    /// (a different variable: `Scalar` equality is name and width), never substituted
+    Subst { e: Expression, env: BTreeMap<String, Bv>, namesake: Option<il::Scalar> },
     /// Expression::sra(x, n)
     Sra { x: Bv, n: Bv },
     /// Expression::rotl(x, s) with 0 <= s <= width
@@ -307,6 +309,43 @@ fn mutate(t: &mut Tape, e: &Expression) -> Expression {
     go(e, &mut target, t)
 }
 
+/// reference substitution: every occurrence of the variable `s` (name and width), nothing else
+fn substitute(e: &Expression, s: &il::Scalar, by: &Expression) -> Expression {
+    use Expression as E;
+    let b = |x: &Expression| Box::new(substitute(x, s, by));
+    match e {
+        E::Scalar(x) => {
+            if x.name() == s.name() && x.bits() == s.bits() {
+                by.clone()
+            } else {
+                e.clone()
+            }
+        }
+        E::Constant(_) => e.clone(),
+        E::Add(l, r) => E::Add(b(l), b(r)),
+        E::Sub(l, r) => E::Sub(b(l), b(r)),
+        E::Mul(l, r) => E::Mul(b(l), b(r)),
+        E::Divu(l, r) => E::Divu(b(l), b(r)),
+        E::Modu(l, r) => E::Modu(b(l), b(r)),
+        E::Divs(l, r) => E::Divs(b(l), b(r)),
+        E::Mods(l, r) => E::Mods(b(l), b(r)),
+        E::And(l, r) => E::And(b(l), b(r)),
+        E::Or(l, r) => E::Or(b(l), b(r)),
+        E::Xor(l, r) => E::Xor(b(l), b(r)),
+        E::Shl(l, r) => E::Shl(b(l), b(r)),
+        E::Shr(l, r) => E::Shr(b(l), b(r)),
+        E::AShr(l, r) => E::AShr(b(l), b(r)),
+        E::Cmpeq(l, r) => E::Cmpeq(b(l), b(r)),
+        E::Cmpneq(l, r) => E::Cmpneq(b(l), b(r)),
+        E::Cmplts(l, r) => E::Cmplts(b(l), b(r)),
+        E::Cmpltu(l, r) => E::Cmpltu(b(l), b(r)),
+        E::Zext(w, x) => E::Zext(*w, b(x)),
+        E::Sext(w, x) => E::Sext(*w, b(x)),
+        E::Trun(w, x) => E::Trun(*w, b(x)),
+        E::Ite(c, x, y) => E::Ite(b(c), b(x), b(y)),
+    }
+}
+
 pub fn decode(t: &mut Tape) -> Case {
     match t.weighted(&[40, 14, 18, 8, 8, 6, 6]) {
         0 => {
@@ -353,7 +392,34 @@ pub fn decode(t: &mut Tape) -> Case {
             let mut env = BTreeMap::new();
             let d = t.range(1, 4);
             let e = gen_tree(t, w, d, Some(&mut env));
-            Case::Subst { e, env }
+            // one time in three: a second variable which has the name of a substituted one and
+            // another width, brought to the width of the tree by an extension or a truncation
+            let mut namesake = None;
+            let mut e = e;
+            if !env.is_empty() && t.chance(1, 3) {
+                let names: Vec<(String, usize)> = env.iter().map(|(k, v)| (k.clone(), v.w)).collect();
+                let (name, wn) = names[t.below(names.len())].clone();
+                let mut w2 = if t.chance(1, 2) { t.range(1, w.max(2)) } else { w + t.range(1, 40) };
+                if w2 == wn {
+                    w2 += 1;
+                }
+                let other = il::scalar(name, w2);
+                let leaf = Expression::Scalar(other.clone());
+                let leaf = if w2 < w {
+                    if t.chance(1, 2) { Expression::Zext(w, Box::new(leaf)) } else { Expression::Sext(w, Box::new(leaf)) }
+                } else if w2 > w {
+                    Expression::Trun(w, Box::new(leaf))
+                } else {
+                    leaf
+                };
+                e = match t.below(3) {
+                    0 => Expression::Add(Box::new(e), Box::new(leaf)),
+                    1 => Expression::Xor(Box::new(leaf), Box::new(e)),
+                    _ => Expression::Ite(Box::new(Expression::Cmpltu(Box::new(e.clone()), Box::new(leaf.clone()))), Box::new(e), Box::new(leaf)),
+                };
+                namesake = Some(other);
+            }
+            Case::Subst { e, env, namesake }
         }
         5 => {
             let w = gen_width(t).min(300);
@@ -763,22 +829,43 @@ pub fn check(case: &Case, obs: &mut Obs) -> Result<(), Failure> {
             let ops: Vec<&str> = f.ops.iter().copied().collect();
             obs.nontrivial(&("rebuild", ops, well.is_ok()));
         }
-        Case::Subst { e, env } => {
+        Case::Subst { e, env, namesake } => {
             obs.class("subst");
-            // substitute every scalar by its constant through replace_scalar
+            // substitute every scalar by its constant through replace_scalar; every step is the
+            // structural substitution of that one variable (name and width) and of nothing else
             let mut cur = e.clone();
             for (name, v) in env {
                 let s = il::scalar(name.clone(), v.w);
+                let want = substitute(&cur, &s, &konst(v));
                 cur = match guard(|| cur.replace_scalar(&s, &konst(v))) {
                     Ok(Ok(x)) => x,
-                    Ok(Err(err)) => fv::fail!("C04|replace_scalar|error", "replace_scalar({}, {}) on {} failed: {}", s, v, cur, err),
+                    Ok(Err(err)) => fv::fail!(format!("C04|replace_scalar|error{}", if namesake.is_some() { "|with-namesake" } else { "" }), "replace_scalar({}, {}) on {} failed: {}", s, v, cur, err),
                     Err(pi) => fv::fail!("C04|replace_scalar|panic", "replace_scalar panicked: {}", pi.msg),
                 };
+                if cur != want {
+                    fv::fail!(format!("C04|replace_scalar|not-the-substitution{}", if namesake.is_some() { "|with-namesake" } else { "" }), "replace_scalar({}, {}) gave {}, the substitution of that variable is {}", s, v, cur, want);
+                }
             }
-            if !cur.scalars().is_empty() {
-                fv::fail!("C04|replace_scalar|scalar-left", "after substituting every scalar, {} still mentions scalars", cur);
+            match namesake {
+                None => {
+                    if !cur.scalars().is_empty() {
+                        fv::fail!("C04|replace_scalar|scalar-left", "after substituting every scalar, {} still mentions scalars", cur);
+                    }
+                    compare_eval("replace_scalar", e, env, &cur, obs)?;
+                }
+                Some(other) => {
+                    // the variable of another width is still there, and only it
+                    let left = cur.scalars();
+                    if left.is_empty() || left.iter().any(|s| *s != other) {
+                        fv::fail!("C04|replace_scalar|namesake-captured", "after substituting {:?} in {}, the scalars left are {:?}; {} was never substituted", env.keys().collect::<Vec<_>>(), e, left, other);
+                    }
+                    obs.class("subst-with-namesake-of-another-width");
+                    let mut f = Feat::default();
+                    features(e, &mut f);
+                    let ops: Vec<&str> = f.ops.iter().copied().collect();
+                    obs.nontrivial(&("subst-namesake", ops, width_class(f.max_w)));
+                }
             }
-            compare_eval("replace_scalar", e, env, &cur, obs)?;
             if !env.is_empty() {
                 obs.class("subst-with-scalars");
             }
@@ -832,7 +919,7 @@ pub fn render(c: &Case) -> String {
         Case::Ext { op, a, target } => format!("Constant::{}({}, {})", op, a, target),
         Case::Tree { e } => format!("eval({})", e),
         Case::Rebuild { e } => format!("rebuild({})", e),
-        Case::Subst { e, env } => format!("subst({}, {:?})", e, env),
+        Case::Subst { e, env, namesake } => format!("subst({}, {:?}{})", e, env, match namesake { Some(n) => format!(", namesake {}", n), None => String::new() }),
         Case::Sra { x, n } => format!("sra({}, {})", x, n),
         Case::Rotl { x, s } => format!("rotl({}, {})", x, s),
     }
@@ -872,6 +959,7 @@ fn main() -> std::process::ExitCode {
         ("tree-width>64", 0.01),
         ("rebuild-ill-sorted-rejected", 0.01),
         ("subst-with-scalars", 0.01),
+        ("subst-with-namesake-of-another-width", 0.004),
     ];
     spec.assumptions = vec![
         "widths are capped at 4096 bits so that only operand values can be blamed for allocation".into(),
